@@ -40,6 +40,9 @@ def _streams(make, W, epoch):
         st_ = list(s)
         if len(st_) != len(s):
             raise Violation("stream-length!=len(sampler)", f"rank {r}/{W}: {len(st_)} entries, len() says {len(s)}")
+        # the draw is a function of (seed, epoch): iterating the same object again without set_epoch reproduces it
+        if list(s) != st_:
+            raise Violation("re-iteration-with-equal-seed-epoch-differs", f"rank {r}/{W}: second pass over the same sampler object differs")
         out.append(st_)
     if len({len(x) for x in out}) != 1:
         raise Violation("ranks-have-different-lengths", str([len(x) for x in out]))
